@@ -1,6 +1,9 @@
 package hx
 
 import (
+	"runtime"
+	"strconv"
+	"strings"
 	"sync"
 	"time"
 
@@ -76,4 +79,18 @@ func (g *Gate) Release() {
 	close(g.release)
 	g.release = make(chan struct{})
 	g.mu.Unlock()
+}
+
+// GoID is the id of the calling goroutine (drivers use it to tell which of
+// several concurrent operations a hook call belongs to).
+func GoID() uint64 {
+	var buf [64]byte
+	n := runtime.Stack(buf[:], false)
+	// "goroutine 123 [running]:"
+	f := strings.Fields(string(buf[:n]))
+	if len(f) < 2 {
+		return 0
+	}
+	id, _ := strconv.ParseUint(f[1], 10, 64)
+	return id
 }
